@@ -35,7 +35,8 @@ structure RMRel where
   bnd : ∀ {α β : Type} (x x' : RM α) (f f' : α → RM β), R x x' → (∀ a, R (f a) (f' a)) → R (RM.bnd x f) (RM.bnd x' f')
   mapErr : ∀ {α : Type} (x x' : RM α) (g : RenderError → RenderError), (∀ e, (g e).reason = e.reason) → R x x' → R (RM.mapErr x g) (RM.mapErr x' g)
   captured : ∀ {α : Type} (x x' : RM α), R x x' → R (RM.captured x) (RM.captured x')
-  cleanup : ∀ (x x' : RM Unit) (c : RC → RC), R x x' → R (RM.withCleanup x c) (RM.withCleanup x' c)
+  bracket : ∀ {α : Type} (enter : RC → RC) (x x' : RM α) (leave : RC → RC → RC), R x x' →
+    R (RM.bracket enter x leave) (RM.bracket enter x' leave)
   /-- the one place the two runs may differ: the strict side throws -/
   throwL : ∀ {α : Type} (e : RenderError) (y : RM α), StrictKind e.reason → R (RM.throw e) y
 
@@ -231,6 +232,16 @@ variable (R : RMRel)
 
 theorem throwRL {α : Type} (r : RReason) (y : RM α) (h : StrictKind r) : R.R (RM.throwR r) y := R.throwL _ y h
 
+theorem withBlock {α : Type} (b : Block) (x x' : RM α) (h : R.R x x') : R.R (RM.withBlock b x) (RM.withBlock b x') :=
+  R.bracket _ x x' _ h
+theorem escOffReset {α : Type} (x x' : RM α) (h : R.R x x') : R.R (RM.escOffReset x) (RM.escOffReset x') :=
+  R.bracket _ x x' _ h
+theorem escOffSaved {α : Type} (x x' : RM α) (h : R.R x x') : R.R (RM.escOffSaved x) (RM.escOffSaved x') :=
+  R.bracket _ x x' _ h
+theorem partialScope (isPB : Bool) (merged : Json) (indent : Option Str) (pb : Option Tmpl) (x x' : RM Unit) (h : R.R x x') :
+    R.R (RM.partialScope isPB merged indent pb x) (RM.partialScope isPB merged indent pb x') :=
+  R.bracket _ x x' _ h
+
 theorem ite {α : Type} {c : Prop} [Decidable c] (a b a' b' : RM α) (h1 : R.R a a') (h2 : R.R b b') :
     R.R (if c then a else b) (if c then a' else b') := by
   by_cases h : c <;> simp only [h, ↓reduceIte] <;> assumption
@@ -280,7 +291,10 @@ macro "rel_auto" R:ident ih:ident : tactic => `(tactic|
     | exact decorateEval_reason _ _
     | apply ($R).mapErr
     | apply ($R).captured
-    | apply ($R).cleanup
+    | apply ($R).withBlock
+    | apply ($R).escOffReset
+    | apply ($R).escOffSaved
+    | apply ($R).partialScope
     | apply ($R).bnd
     | apply ($R).ite
     | intro _
